@@ -114,6 +114,33 @@ def never_written(prog, qn):
 
 
 import itertools as _it
+class FieldCell(list):
+    """a one-element view of a record field, so that a reference bound to `p->next` can be handled like a boxed variable"""
+
+    def __init__(self, recs, rec, field):
+        list.__init__(self, [None])
+        self._recs, self._rec, self._field = recs, rec, field
+
+    def __len__(self):
+        return 1
+
+    def __getitem__(self, i):
+        if i != 0:
+            raise IndexError(i)
+        r = self._recs[self._rec]
+        if r.get('__freed'):
+            raise OOB(('R', self._rec), 0, 0, None)
+        return r[self._field]
+
+    def __setitem__(self, i, v):
+        if i != 0:
+            raise IndexError(i)
+        r = self._recs[self._rec]
+        if r.get('__freed'):
+            raise OOB(('R', self._rec), 0, 0, None)
+        r[self._field] = v
+
+
 class PodRecord(dict):
     """fields of a plain C structure: a field never stored to reads as indeterminate"""
     def __missing__(self, k):
@@ -198,11 +225,32 @@ class Run:
         sub.recs = self.recs
         sub.listsinks, sub.dicts = self.listsinks, self.dicts
         sub.objlen, sub.strobjs, sub.strcap = self.objlen, self.strobjs, self.strcap       # same object: same modelled members
+        pend = getattr(self, '_pending_refs', None)
+        if pend:
+            sub.boxed.update(pend)
+            self._pending_refs = None
         self.bind_args(sub, g, fn, args)
         return sub.run()
 
+    def ref_bindings(self, e, fn):
+        """boxes for the non-const scalar / pointer reference parameters of the member a call names, taken from the argument
+        expressions in this run (the member itself may run on another run's object)"""
+        cands = [g for g in self.prog.fn(fn, e.get('sig')) if g.get('body')]
+        if not cands:
+            return None
+        g = cands[0]
+        probe = Run(self.prog, g, self.bufs)
+        for p_, a in zip(g['params'], e.get('a', [])):
+            pt = T(g, p_['t'])
+            to_ = T(g, pt.get('to')) if pt.get('ref') else {}
+            if pt.get('ref') and not to_.get('const') and (to_.get('ptr') or to_.get('int')):
+                self.bind_ref(probe, g, p_, a)
+        return dict(probe.boxed) or None
+
     def bind_args(self, sub, g, fn, args):
         for p_, a in zip(g['params'], args):
+            if p_['id'] in sub.boxed:
+                continue
             if self.objects and isinstance(a, tuple) and a[0] == 'P' and isinstance(a[1], tuple) and a[1][0] == 'O' and a[2] == 0 and \
                     (T(g, p_['t']).get('ref') or T(g, p_['t']).get('rec')):
                 # a modelled object handed to a member by reference: the parameter names the same object
@@ -314,6 +362,12 @@ class Run:
             return True
         if l[0] == 'var' and l[1] in self.boxed:
             sub.boxed[p_['id']] = self.boxslot(l[1])
+            return True
+        if l[0] == 'rec' and not T(g, pt.get('to')).get('const'):
+            name = ('F', l[1], l[2])
+            if name not in self.bufs:
+                self.bufs[name] = FieldCell(self.recs, l[1], l[2])
+            sub.boxed[p_['id']] = (name, 0)
             return True
         cur_ = self.vars.get(l[1]) if l[0] == 'var' else None
         if l[0] == 'var' and not T(g, pt.get('to')).get('const') and not (isinstance(cur_, tuple) and cur_[0] in ('R', 'THIS', 'THISOF', 'SLIST', 'DICT', 'OBJ')):
@@ -1455,7 +1509,15 @@ class Run:
                 if name in self.call_ptrs and not e.get('a'):
                     return self.call_ptrs[name]
                 if self.methods.get(name) is not None or self.methods.get('*') == 'interp':
-                    args = [self.val(a) for a in e.get('a', [])]
+                    pend = self.ref_bindings(e, fn) if not callable(self.methods.get(name)) else None
+                    args = []
+                    g0 = [g_ for g_ in self.prog.fn(fn, e.get('sig')) if g_.get('body')]
+                    for j_, a in enumerate(e.get('a', [])):
+                        if pend and g0 and j_ < len(g0[0]['params']) and g0[0]['params'][j_]['id'] in pend:
+                            args.append(None)           # bound by reference: the value is read through the box
+                        else:
+                            args.append(self.val(a))
+                    self._pending_refs = pend
                     return self.call_member(e, fn, name, args)
             if name in self.call_ptrs and not e.get('a'):
                 return self.call_ptrs[name]
@@ -1658,6 +1720,19 @@ class Run:
         if v.get('init') is None:
             if tv.get('int') or tv.get('ptr'):
                 self.vars.pop(v['id'], None)
+                return
+            raise Unsupported('local %s of type %s' % (v['n'], tv.get('s')))
+        if tv.get('ref') and v.get('init') is not None and (T(self.f, tv.get('to')).get('ptr') or T(self.f, tv.get('to')).get('int')) and not T(self.f, tv.get('to')).get('const'):
+            # a reference local bound to a slot of a buffer (`KeyValN*& head = a[i];`): reads and writes go to that slot
+            try:
+                l_ = self.lv(v['init'])
+            except Unsupported:
+                l_ = None
+            if l_ is not None and l_[0] == 'buf' and isinstance(l_[1], tuple) and l_[1][0] == 'P' and l_[1][1] in self.bufs and isinstance(l_[1][2], int):
+                self.boxed[v['id']] = (l_[1][1], l_[1][2])
+                return
+            if l_ is not None and l_[0] == 'var' and l_[1] in self.boxed:
+                self.boxed[v['id']] = self.boxed[l_[1]]
                 return
             raise Unsupported('local %s of type %s' % (v['n'], tv.get('s')))
         if tv.get('ref') and T(self.f, tv.get('to')).get('rec') and v.get('init') is not None:
